@@ -35,6 +35,7 @@ import (
 const ruleText = "audit streams rendered from the record shapes of processors/auditd/testdata: compound kernel events (SYSCALL [EXECVE] CWD PATH{1,2} PROCTITLE [EOE]; also EOE-only, PROCTITLE-only and unterminated ones) and single-record events (LOGIN, USER_*, CRED_*, SERVICE_START); blocks of 1-3 kernel events whose records are merged in a random order that keeps each event's own order; empty lines anywhere; " +
 	"level 1 modes: clean, badline (garbage / truncated header / no msg= / unknown type / non-numeric sequence / no type= at a random position), faults (the Auditor fails at 1-3 random call indices), after (After filter inside the stream), smallmax (maxInFlight 1-2: overflow eviction), unterminated (+Maintain calls), late (a record after its event's terminator), expiry (60ms timeout, 150ms pauses, Maintain), gaps (sequence gaps, later event with lower number), wrap (numbers from just below 2^32 on, wrapping to 0; half of the events unterminated, Maintain calls, maxInFlight 1-3 in two of three cases: compared with the model ordered by the source's Less), far (two clusters of numbers 2^24-1..2^24+2^26 apart, each event from either; same treatment); " +
 	"level 2 modes on Auditd.Read: clean, badline, writefail (budget k for every k below the session's event count, drawn at random), latelogin-writefail, writefail-once (exactly one write is rejected, at the session's first event half of the time; judged by the oracle only), badlogin (pid 0 / empty credential / nil source), badpid (LOGIN record whose pid is not a number); " +
+	"multisession-writefail-once (level 2, generator of its own, oracle only): two or three audit sessions opened by ONE sshd pid wait for its login at the same time, each holding events (one of them already ended in a quarter of the cases); the login arrives; the sink rejects exactly one write - the first one half of the time, otherwise any of the writes a flush of everything held would make, and for some streams every such position in turn; whichever session the correlator gives the login to, a rejected write must stop Read with that error; " +
 	"backlog modes (both levels, n/5 further cases + a sweep): the Audits channel is BUFFERED with the daemon's capacity and the lines are queued in batches - everything up to the first sync item before the parse loop / Read starts, later batches while the callback of a just-completed event is kept waiting (hold) - clean or with a malformed line at a random position; sweep: for a few streams the malformed line at EVERY position of the pre-queued backlog (oracle only); " +
 	"non-trivial = at least two events interleaved or a fault injected; distinct by the concrete item list"
 
@@ -98,6 +99,31 @@ func main() {
 		}
 		c.Debug = j%3 == 2
 		runCase(&c, sum, cases, *n+j)
+	}
+	// several sessions of ONE sshd pid waiting for its login, exactly one write rejected (generator of its own): n/15 + 2
+	// cases with k drawn, and for one stream in every fifty cases (at least one) EVERY k in turn
+	mr := hutil.NewRand(seed ^ 0xC15 ^ 0x3D15E55)
+	nf0 := sum.NFailures
+	for j := 0; j < *n/15+2; j++ {
+		c, _ := genL2Multi(mr, -1)
+		c.Debug = j%3 == 2
+		runCase(&c, sum, cases, 2**n+j)
+		if sum.NFailures >= nf0+3 {
+			break // each further failing case would wait for Read for another time-out
+		}
+	}
+	for j := 0; j < 1+*n/50 && j < 12 && sum.NFailures < nf0+5; j++ {
+		s0 := mr.U64()
+		_, held := genL2Multi(hutil.NewRand(s0), -1)
+		for k := 0; k < held; k++ {
+			c, _ := genL2Multi(hutil.NewRand(s0), k)
+			before := sum.NFailures
+			runCase(&c, sum, cases, 2**n+j)
+			sum.Dist("l2_multisession_sweep_every_write_position")
+			if sum.NFailures > before {
+				break // a failing position found: the remaining ones would each wait for the same time-out
+			}
+		}
 	}
 	backlogSweep(sum, r, 2+*n/300)
 	gatedChecks(sum, 6)
